@@ -88,6 +88,7 @@ func checkC10(c *Ctx, r *Report) {
 	ed25519KeyLength(c, r, "C10.R1.ed25519-key-length")
 	noPackageState(c, r, "C10.R1.key-from-record", []string{"DNSKEY.publicKeyRSA", "DNSKEY.publicKeyECDSA", "DNSKEY.publicKeyED25519"}, "signatures are checked against a key decoded earlier from another DNSKEY with the same name, algorithm and tag")
 	wildcardBelowRoot(c, r, "C10.R2.wildcard-below-root")
+	round12(c, r, "C10")
 }
 
 // c17R6as runs the RSA size-limit rule under another rule id (shared by C10, C17, C18).
